@@ -168,6 +168,10 @@ func (c *Ctx) evalExpr(env *CEnv, x ast.Expr) CVal {
 			cerr("deref of non-pointer")
 		}
 		ref := v.V.(Sc).T
+		if at, ok := pt.Elem().Underlying().(*types.Array); ok {
+			// pointer to a whole array object: element memory id is 4096*ref (as in instr.go)
+			return CVal{V: ArrV{A: c.loadLiftedMem(env.state(), "(* 4096 "+ref+")", at.Elem(), typeKey(at.Elem()), ""), N: at.Len(), Elem: at.Elem()}, T: pt.Elem()}
+		}
 		return CVal{V: c.load(env.state(), PtrV{Kind: 1, Ref: ref, Root: pt.Elem(), Elem: pt.Elem()}), T: pt.Elem()}
 	}
 	cerr("unsupported contract expression %T", x)
@@ -681,6 +685,43 @@ func (c *Ctx) evalCall(env *CEnv, e *ast.CallExpr) CVal {
 				others = append(others, not(eq))
 			}
 			parts = append(parts, imp(and(others...), c.strEq(rs, strOf(e.Args[2]))))
+			return CVal{V: Sc{and(parts...), "Bool"}, T: tBool}
+		case "enumParse":
+			// enumParse(text, v, dflt, "n1", k1, "n2", k2, ...): text equal to a listed name parses to its value, any other text to dflt
+			if len(e.Args) < 3 || len(e.Args)%2 != 1 {
+				cerr("enumParse: bad argument count")
+			}
+			tx := c.evalExpr(env, e.Args[0])
+			if _, isS := tx.V.(SliceV); isS {
+				tx = CVal{V: c.convertVal(tx.V, tx.T, types.Typ[types.String], env.state(), "true", token.NoPos), T: types.Typ[types.String]}
+			}
+			ts, ok := tx.V.(StrV)
+			if !ok {
+				cerr("enumParse: text is not a string or []byte")
+			}
+			v := c.evalExpr(env, e.Args[1])
+			vs, ok := v.V.(Sc)
+			if !ok {
+				cerr("enumParse: scalar value expected")
+			}
+			valOf := func(x ast.Expr) string {
+				k := c.evalExpr(env, x)
+				if k.K != nil {
+					k = c.materialize(k, v.T)
+				}
+				return k.V.(Sc).T
+			}
+			var parts, others []string
+			for i := 3; i+1 < len(e.Args); i += 2 {
+				l := c.evalExpr(env, e.Args[i])
+				if l.K == nil || l.K.Kind() != constant.String {
+					cerr("enumParse: string literal expected")
+				}
+				eq := c.strEq(ts, c.strLit(constant.StringVal(l.K)))
+				parts = append(parts, imp(eq, fmt.Sprintf("(= %s %s)", vs.T, valOf(e.Args[i+1]))))
+				others = append(others, not(eq))
+			}
+			parts = append(parts, imp(and(others...), fmt.Sprintf("(= %s %s)", vs.T, valOf(e.Args[2]))))
 			return CVal{V: Sc{and(parts...), "Bool"}, T: tBool}
 		case "windowAt":
 			// windowAt(r, o): the stream behind r from absolute offset o as a byte slice value
